@@ -42,6 +42,7 @@ conversion itself never faults is proven (`rl_history_builds_accepted_runs`); th
 -/
 import Sds.Proofs.Glue4
 import Sds.Proofs.Sparse2
+import Sds.Proofs.GenEqBuild
 
 namespace Sds.C16
 open Sds Outcome BuildersProofs
@@ -369,5 +370,41 @@ example : rlRun .checked [.set 3 2, .set 4 1, .setLen 10, .bit 10, .set (2 ^ 64 
   constructor <;> decide
 example : ([.set 3 2, .setLen 10, .bit 10] : List RL.BCall).foldl RL.specCall [] =
     [false, false, false, true, true, false, false, false, false, false, true] := by decide
+
+/-! **The builder methods as translated from the source on this run** (`Generated/FnsBuild.lean`, tools/rs2lean.py).
+`RLBuilder::{count_zeros, code_len, flush, set_run_unchecked, set_bit_unchecked, try_set, set_len}` — the two rejection
+tests of `try_set`, the merge test `start == len`, the order `flush; len = …; run = …` of `set_len` (finding F9), the
+block-closing test and sample of `flush` (the `while` loop of `encode` is the one callee named by its model function) —
+and `SparseBuilder::{is_full, capacity, universe, next_index, is_multiset, is_empty, set_unchecked, try_set}` with the
+three rejection tests in source order.  For every builder state reachable by accepted calls (`Inv`, `DInv` — proven
+invariants of the model builder — resp. `SbInv`) whose buffers have a length representable in `usize`, the code as it is
+NOW is the model function the acceptance and refinement theorems above are about.  `GenEq.rlb_flush_ne_*` and
+`GenEq.spb_set_unchecked_ne*` are `decide` witnesses that the hypotheses are needed (states outside the invariants). -/
+theorem run_length_builder_as_translated_from_source (m : Mode) (b : RLBuilder) (start len i : Nat) (hlen : len < U64)
+    {done : List (List (Nat × Nat))} {cur : List (Nat × Nat)}
+    (h : b.Inv) (hd : RLBuilder.DInv b done cur) (hraw : b.data.data.len < U64) :
+    Generated.gen_RLBuilder_count_zeros m b = b.countZeros m ∧
+    Generated.gen_RLBuilder_code_len m i = ok (RLBuilder.codeLen i) ∧
+    Generated.gen_RLBuilder_flush m b = b.flush m ∧
+    Generated.gen_RLBuilder_set_run_unchecked m b start len = b.setRunUnchecked m start len ∧
+    Generated.gen_RLBuilder_set_bit_unchecked m b i = b.setRunUnchecked m i 1 ∧
+    Generated.gen_RLBuilder_try_set m b start len = b.trySet m start len ∧
+    Generated.gen_RLBuilder_set_len m b len = b.setLen m len :=
+  ⟨GenEq.rlb_count_zeros_eq m b, GenEq.rlb_code_len_eq m i, GenEq.rlb_flush_eq_of_dinv m b h hd hraw,
+   GenEq.rlb_set_run_unchecked_eq_of_dinv m b start len h hd hraw, GenEq.rlb_set_bit_unchecked_eq_of_dinv m b i h hd hraw,
+   GenEq.rlb_try_set_eq_of_dinv m b start len hlen h hd hraw, GenEq.rlb_set_len_eq_of_dinv m b len h hd hraw⟩
+
+theorem sparse_builder_as_translated_from_source (m : Mode) (b : SparseBuilder) (i : Nat) (h : BuildersProofs.SbInv b)
+    (hu : b.univ + b.increment ≤ U64) (hb : b.low.len * b.low.width < U64) (hhl : b.high.len < U64) :
+    Generated.gen_SparseBuilder_is_full m b = ok b.isFull ∧
+    Generated.gen_SparseBuilder_try_set m b i = b.trySet i ∧
+    (b.len < b.low.len → i < b.univ → Generated.gen_SparseBuilder_set_unchecked m b i = b.setUnchecked i) :=
+  ⟨GenEq.spb_is_full_eq m b, GenEq.spb_try_set_eq_of_inv m b i h hu hb hhl,
+   fun hl hi => GenEq.spb_set_unchecked_eq_of_inv m b i h hl hi hu hb hhl⟩
+
+/-- the translated `set_len(n); try_set(n, k)` records the run at `n` (finding F9: the code as first written recorded
+it at the previous run start) -/
+example : (Generated.gen_RLBuilder_set_len .checked {} 8 >>= fun b => Generated.gen_RLBuilder_try_set .checked b 8 1)
+    = ok { len := 9, ones := 1, tail := 0, run := (8, 1) } := by decide
 
 end Sds.C16
